@@ -2,14 +2,24 @@
 """Regression run of the seeded property-breaking changes.
 For every /verif/seeded/<id>/ : apply patch.diff to /repo, run the quick checks named in
 meta.json (caught_by_quick_checks, or the given list), revert; then write seeded/INDEX.md.
-usage: tools/run_seeded.py [id-substring ...]"""
+usage: tools/run_seeded.py [id-substring ...]
+       SHARD=i/n tools/run_seeded.py      (every n-th seed, scratch dirs /tmp/*-reg<i>; no INDEX.md)
+       tools/run_seeded.py --index-only   (write INDEX.md from the last_regression fields)"""
 import json, os, subprocess, sys, glob, re
 os.chdir("/verif")
-sel = sys.argv[1:]
+sel = [a for a in sys.argv[1:] if not a.startswith("--")]
+index_only = "--index-only" in sys.argv
+shard = os.environ.get("SHARD")
+si, sn = (int(x) for x in shard.split("/")) if shard else (0, 1)
+tag = "reg%d" % si if shard else "reg"
 rows = []
+idx = -1
 for d in sorted(glob.glob("seeded/*/")):
     sid = os.path.basename(d.rstrip("/"))
     if sel and not any(s in sid for s in sel):
+        continue
+    idx += 1
+    if idx % sn != si:
         continue
     meta = json.load(open(d + "meta.json"))
     if not meta.get("caught_by_quick_checks") and meta.get("caught_by_thorough_checks"):
@@ -17,21 +27,25 @@ for d in sorted(glob.glob("seeded/*/")):
         print(sid, "SKIPPED (thorough only)", flush=True)
         continue
     checks = meta.get("caught_by_quick_checks") or [meta["property_broken"][:3]]
-    out = subprocess.run(["tools/try_iso.sh", os.path.abspath(d + "patch.diff"), "quick"] + checks, capture_output=True, text=True).stdout
-    res = {}
-    for line in out.splitlines():
-        m = re.match(r"(C\d\d) rc=(\d)", line)
-        if m:
-            cls = re.search(r"violation class=(\S+)", line)
-            res[m.group(1)] = (int(m.group(2)), cls.group(1) if cls else "")
-    meta["last_regression"] = {c: {"rc": r[0], "first_class": r[1]} for c, r in res.items()}
-    json.dump(meta, open(d + "meta.json", "w"), indent=1)
+    if index_only:
+        res = {c: (v["rc"], v["first_class"]) for c, v in meta.get("last_regression", {}).items()}
+        out = ""
+    else:
+        out = subprocess.run(["env", "TRIAL_TAG=" + tag, "tools/try_iso.sh", os.path.abspath(d + "patch.diff"), "quick"] + checks, capture_output=True, text=True).stdout
+        res = {}
+        for line in out.splitlines():
+            m = re.match(r"(C\d\d) rc=(\d)", line)
+            if m:
+                cls = re.search(r"violation class=(\S+)", line)
+                res[m.group(1)] = (int(m.group(2)), cls.group(1) if cls else "")
+        meta["last_regression"] = {c: {"rc": r[0], "first_class": r[1]} for c, r in res.items()}
+        json.dump(meta, open(d + "meta.json", "w"), indent=1)
     ok = all(res.get(c, (0, ""))[0] == 1 for c in checks)
     rows.append((sid, meta["property_broken"], checks, res, ok, meta.get("not_caught_by", []), meta.get("note", "")))
     print(sid, "OK" if ok else "MISSED", {c: r[0] for c, r in res.items()}, flush=True)
     if "apply" in out and not res:
         print(out)
-if not sel:
+if not sel and not shard:
     with open("seeded/INDEX.md", "w") as f:
         f.write("# Seeded property-breaking changes and the checks that catch them\n\n")
         f.write("Every change compiles (with and without `verif-hooks`), passes the repository's 90 tests, and comes with a demonstration that fails with it and passes without it (`demo.rs`, `HOWTO.txt`). `rc=1` = the quick check reports a `VIOLATION` with the change applied to /repo (regression run by `tools/run_seeded.py`; the tree is reverted afterwards).\n\n")
